@@ -1,6 +1,18 @@
 package mocrelay
 
-// Intentionally (almost) empty: the checks observe RouterHandler and
+import (
+	"context"
+	"net/http"
+)
+
+// The checks observe RouterHandler and
 // CacheHandler through reflection (sim/simrt/reflectx.go), so no white-box
-// accessor for package mocrelay is injected any more. The file is kept so that
-// tools/build.sh stays unchanged.
+// accessor for them is injected; the only forwarding accessor is the one below.
+
+
+// VerifCtxWithRequest: the context a Relay hands to its handler carries the
+// upgrade request (GetRequest); sessions driven directly by the checks get one
+// the same way.
+func VerifCtxWithRequest(ctx context.Context, r *http.Request) context.Context {
+	return ctxWithRequest(ctx, r)
+}
